@@ -447,7 +447,7 @@ fn models(tier: &str) -> Vec<M> {
     let quick = tier == "quick";
     let enc = WorldCfg { encrypt_handshake: true, tree_ext: false, ..Default::default() };
     if quick {
-        vec![M { depth: 4, cfg: WorldCfg::default() }, M { depth: 3, cfg: enc }]
+        vec![M { depth: 5, cfg: WorldCfg::default() }, M { depth: 4, cfg: enc }]
     } else {
         vec![M { depth: 6, cfg: WorldCfg::default() }, M { depth: 5, cfg: enc }]
     }
